@@ -1136,6 +1136,11 @@ func run(c *Ctx) {
 				c.Count("reuse-observed:" + callKind(cl, outs[i].Failed))
 			}
 			if outs[i].Digest != fr.Digest {
+				if h.Procs > 1 && !stableUnderParallelism(h, i, cl, fr, fc) {
+					// the result varies between identical runs at GOMAXPROCS>1: scheduling (C10), not history
+					c.Count("skipped:unstable-under-parallelism")
+					continue
+				}
 				c.Count("mismatch")
 				key, replay := minimise(h, i, fr, fc)
 				c.Violate(key, fmt.Sprintf("call #%d of the history returns %q; as the first call of a fresh process it returns %q", i, outs[i].Digest, fr.Digest), replay)
@@ -1157,6 +1162,20 @@ func run(c *Ctx) {
 		"no extracted model for C11: correspondence = regenerated Gen/Fields.v obligations (translator tie) + this differential; cases.txt is empty by design")
 	// deterministic order of violations
 	sort.SliceStable(c.D.Violations, func(i, j int) bool { return c.D.Violations[i].Key < c.D.Violations[j].Key })
+}
+
+// stableUnderParallelism confirms a disagreement seen at GOMAXPROCS>1: two more fresh
+// processes must agree with the cached fresh result and two more runs of the history
+// prefix must reproduce the same in-history result.
+func stableUnderParallelism(h *history, i int, cl *Call, fr *childResult, fc *freshCache) bool {
+	for k := 0; k < 2; k++ {
+		if r := fc.spawn(cl, h.Procs); r.Digest != fr.Digest || r.Digest2 != fr.Digest {
+			return false
+		}
+	}
+	first, _ := runHistory(h.Calls[:i+1], h.Procs)
+	second, _ := runHistory(h.Calls[:i+1], h.Procs)
+	return first[i].Digest == second[i].Digest && first[i].Digest != fr.Digest
 }
 
 // minimise looks for a single predecessor that reproduces the disagreement; the
@@ -1196,6 +1215,28 @@ func minimise(h *history, i int, fr *childResult, fc *freshCache) (string, any) 
 // regressionHistories: minimised histories that exposed defects (kept as first cases).
 func regressionHistories(g *gen) []*history {
 	var out []*history
+	// corpus/c11/*.json: minimised encode-only histories that exposed defects
+	if dir := os.Getenv("VERIF_DIR"); dir != "" {
+		files, _ := filepath.Glob(filepath.Join(dir, "corpus", "c11", "*.json"))
+		sort.Strings(files)
+		for _, f := range files {
+			b, err := os.ReadFile(f)
+			if err != nil {
+				continue
+			}
+			var r struct {
+				History []*Call `json:"history"`
+				Procs   int     `json:"procs"`
+			}
+			if json.Unmarshal(b, &r) != nil || len(r.History) == 0 {
+				continue
+			}
+			if r.Procs < 1 {
+				r.Procs = 1
+			}
+			out = append(out, &history{Group: "corpus", Procs: r.Procs, Calls: r.History})
+		}
+	}
 	// failed (truncated) lossy decode, then a valid lossy decode: stale Decoder.intraL
 	var truncs, goods []*libFile
 	for i := range g.lib {
